@@ -23,7 +23,7 @@ HERE = os.path.dirname(os.path.abspath(__file__))
 sys.path.insert(0, HERE)
 
 ONLY = ('^(op_(add|sub|mul|div|rem|eq|ne)|abs__|rcp|rsqrt__|sin__|cos__|madd__|anyLessThan__|dot__|length__|cross__|normalize__|'
-        'safe_normalize__|interpolate_uv__|min__|max__|divRoundUp__|reduce_|arg_max__|less_op_call__v|v[234]a?(f|i|d|uc)_)')
+        'safe_normalize__|interpolate_uv__|min__|max__|divRoundUp__|reduce_|lerp__|clamp__v|arg_max__|less_op_call__v|v[234]a?(f|i|d|uc)_)')
 FAM_FILES = None
 
 
@@ -231,9 +231,64 @@ def close_enough(a, b, ret):
 
 
 # ------------------------------------------------------------------------------------------ run
+def scan_declarations(ctx):
+    """inventory closure, part 1 (before any behaviour is compared): every declaration of vec.h (+ the vec-related helpers of rkmath.h) found
+    in the clang AST of THIS working tree must have an entry in props/C04/cover.py and vice versa; breaks are reported by NAME"""
+    import declscan
+    import cover
+    try:
+        decls = declscan.scan(ctx.repo, os.path.join(ctx.verif, "build", "include"), os.path.join(ctx.build, "scan"))
+    except Exception as ex:
+        ctx.broken.append("inventory: the declaration scan of vec.h failed: %s" % str(ex)[-300:])
+        return None
+    for k in sorted(set(decls) - set(cover.COVER)):
+        ctx.broken.append("inventory: declaration with no row in props/C04/cover.py (new overload / member, or changed signature): %s:%s  %s"
+                          % (decls[k]["file"], decls[k]["line"], k))
+    for k in sorted(set(cover.COVER) - set(decls)):
+        ctx.broken.append("inventory: row whose declaration vanished from the working tree (removed or signature changed): %s" % k)
+    for b in ctx.broken:
+        if b.startswith("inventory:"): ctx.log(b)
+    return decls
+
+
+def inventory_counts(ctx, inv, decls):
+    """inventory closure, part 2: every covered declaration and every inventory row must have executed cases in this run"""
+    import re
+    import cover
+    tv = ctx.cov.get("_tvcount", {})
+    orc = ctx.cov.get("_oraclecount", {})
+    zero_rows = [e["name"] for e in inv.ENTRIES if tv.get(e["name"], 0) == 0]
+    for n in zero_rows[:8]:
+        ctx.broken.append("inventory: row %s executed no translation-validation case in this run" % n)
+    per = {}
+    nout = 0
+    for k, c in cover.COVER.items():
+        if k not in decls:
+            continue
+        if c.get("out"):
+            per[k] = "out of scope: " + c["out"]; nout += 1
+            continue
+        r = {"rows": 0, "oracle": 0}
+        for rx in c["rows"]:
+            n = sum(v for name, v in tv.items() if re.search(rx, name))
+            r["rows"] += n
+            if n == 0:
+                ctx.broken.append("inventory: covered declaration '%s': no inventory row matching %s executed a case in this run" % (k, rx))
+        for rx in c["oracle"]:
+            n = sum(v for name, v in orc.items() if re.search(rx, name))
+            r["oracle"] += n
+            if n == 0:
+                ctx.broken.append("inventory: covered declaration '%s': no oracle-harness case matching %s executed in this run" % (k, rx))
+        per[k] = r
+    ctx.cov["inventory"] = {"declared": len(decls), "covered": len(per) - nout, "out_of_scope": nout, "rows": len(inv.ENTRIES),
+                            "rows_without_executed_case": zero_rows, "per_declaration": per, "per_row_tv_cases": tv, "oracle_case_counters": orc}
+    ctx.cov.pop("_tvcount", None); ctx.cov.pop("_oraclecount", None)
+
+
 def run(ctx):
     import mkprops
     import inventory as inv
+    decls = scan_declarations(ctx)
     ok_gen = regen(ctx)
     mkprops.main.__globals__["print"] = lambda *a, **k: None
     files = mkprops.properties()
@@ -270,6 +325,8 @@ def run(ctx):
     if all(oracles):
         oracle_run(ctx, oracles)
         ctx.log("oracle harness done")
+    if decls is not None:
+        inventory_counts(ctx, inv, decls)
     ctx.rule = ("translation validation: per inventoried overload, operand tuples whose components are pairwise distinct per element type, drawn from "
                 "{small multiples of 1/8, +-0, +-inf, FLT_MAX, FLT_MIN, 1e+-30, 2^24+1, 0.1, 1/3} for floats and from [-mag, mag] with the ends for "
                 "integers (mag chosen per operation so that no signed overflow occurs; uint8_t 0..255 with wrap-around on conversion back); comparison / "
@@ -441,10 +498,12 @@ def translation_validation(ctx, inv, mkprops, model, tvs, spec_only=None):
             return
         for i, l in zip(idx, out): ilines[i] = l
     ctx.count(len(lines))
+    tvcount = ctx.cov.setdefault("_tvcount", {})
     viol, corr = {}, []
     hist = {}
     for i, (l, il, ml, sl) in enumerate(zip(lines, ilines, mlines, slines)):
         k, e = meta[i]
+        tvcount[e["name"] if e else "arg_max"] = tvcount.get(e["name"] if e else "arg_max", 0) + 1
         if e is None:                                     # arg_max: property oracle = first index of a maximal component
             xs = [float.fromhex(t) if ("x" in t or "inf" in t) else float(t) for t in l.split()[3:]]
             want = "arg_max %d" % xs.index(max(xs))
@@ -503,6 +562,10 @@ def oracle_run(ctx, oracles):
         for l in done:
             checks += int(l.split("checks=")[1].split()[0])
         for l in out.splitlines():
+            if l.startswith("CNT "):
+                t = l.split()
+                oc = ctx.cov.setdefault("_oraclecount", {})
+                oc[t[1]] = oc.get(t[1], 0) + int(t[2])
             if l.startswith("COV "):
                 k, v = l[4:].split("=", 1)
                 cov[k] = cov.get(k, 0) + int(v)
